@@ -13,8 +13,10 @@ import iolib, gens
 from iolib import RunDir, run_cli, sig, shim_env, read_trace, le32
 from vlib import Oracle, hx, md5
 
-THEOREMS = ["C14_exit0_sound", "C14_rm_order", "C14_rm_order_compress", "C14_multi_exit0", "C14_truncation", "C14_truncation_exit", "C14_pipe_no_exception"]
-CORRESPONDENCE = ["Io.decompress (ST model) == lz4 -d/-t of the ST build under the same input, seekable flag and I/O fault: exit status class, output on exit 0, source removal",
+THEOREMS = ["C14_exit0_sound", "C14_rm_order", "C14_rm_order_compress", "C14_multi_exit0", "C14_truncation", "C14_truncation_exit", "C14_pipe_no_exception", "C14_lz4f_st_concrete_sound", "C14_lz4f_st_fresh_sound"]
+CORRESPONDENCE = ["IoLz4f.lz4f_st_run (concrete LZ4IO_decompressLZ4F loop over Model.FrameD) == lz4 -d -c / -t of the ST build under the stdio tracer: sequence of fread (request, return) pairs, fwrite sizes, "
+                  "exit code when the loop exits the process (62/66/67/68), decoded bytes; and == Io.lz4f_st (abstract step over frame_decode) on status, output and bytes left in the source",
+                  "Io.decompress (ST model) == lz4 -d/-t of the ST build under the same input, seekable flag and I/O fault: exit status class, output on exit 0, source removal",
                   "Io.decompress (MT model) == lz4 -d/-t of the MT build (same observables)",
                   "Io.compress tail model == lz4 compression (frame ST/MT, legacy) under the same I/O fault: exit status class, source removal"]
 RULE = ("small multi-frame streams (2-4 frames over LZ4/legacy/skippable, own frame writer) x {every truncation point, every single-bit flip "
@@ -714,7 +716,7 @@ def stloop_one(acc, st, data, tag, frame_len=None, content=None, test=False, rpo
 def case_stloop(acc, st, case, rng):
     ctx = st["ctx"]
     if case.get("big"):
-        raw = gens.data(rng, rng.choice(["text", "runs", "mixed", "random", "period"]), rng.choice([70000, 200000, 300000]))
+        raw = gens.data(rng, rng.choice(["runs", "random", "period", "zerorich", "barely"]), rng.choice([70000, 140000]))
         cargs = rng.choice([["-1"], ["-9"], ["-BD", "-B4"], ["-BX"], ["--content-size"], ["--no-frame-crc"], ["-B5", "-BD"], ["-B7"]])
         rc, fr, err = run_cli(ctx["ST"], cargs + ["-c", "-q"], stdin_bytes=raw)
         if rc != 0:
@@ -723,24 +725,28 @@ def case_stloop(acc, st, case, rng):
     else:
         fr, content, d = iolib.lz4_frame(rng, nblocks=rng.choice([0, 1, 2, 3, 5]), opts={"dictid": False})
     n = len(fr)
+    big = bool(case.get("big"))
     acc.stats["stloop_frames"] += 1
     test = rng.random() < 0.3
     stloop_one(acc, st, fr, "whole frame " + d, frame_len=n, content=content, test=test)
     # something follows the frame: another frame, garbage, a skippable frame, a lone magic number
     fr2, c2, d2 = iolib.lz4_frame(rng, nblocks=1, opts={"bsid": 4, "dictid": False})
-    for tail, tt in [(fr2, "second frame"), (rng.randbytes(rng.randrange(1, 40)), "garbage"), (le32(iolib.MAGIC_SKIP0 + 1) + le32(3) + b"abc", "skippable"),
-                     (le32(iolib.MAGIC), "lone magic"), (b"\0", "one byte")]:
+    tails = [(fr2, "second frame"), (rng.randbytes(rng.randrange(1, 40)), "garbage"), (le32(iolib.MAGIC_SKIP0 + 1) + le32(3) + b"abc", "skippable"),
+             (le32(iolib.MAGIC), "lone magic"), (b"\0", "one byte")]
+    for tail, tt in (tails[:2] if big else tails):
         stloop_one(acc, st, fr + tail, "%s + %s" % (d, tt), frame_len=n, content=content, test=test)
     # truncations (every cut for small frames, sampled otherwise) and bit flips
     cuts = list(range(4, n)) if n <= 80 else sorted(set([4, 5, 6, 7, 8, 10, 11, 15, 19, n - 1, n - 4, n - 5, n - 8] + [rng.randrange(4, n) for _ in range(12)]))
+    if big:
+        cuts = [7, n - 1, n - 5, rng.randrange(4, n), rng.randrange(4, n)]
     for c in cuts:
         if 4 <= c < n:
             stloop_one(acc, st, fr[:c], "%s cut at %d/%d" % (d, c, n), test=test)
-    for _ in range(12 if n > 80 else 30):
+    for _ in range(3 if big else (12 if n > 80 else 30)):
         i = rng.randrange(4, n); b = bytearray(fr); b[i] ^= 1 << rng.randrange(8)
         stloop_one(acc, st, bytes(b), "%s bit flip at %d" % (d, i), test=test)
     # read errors inside and after the frame
-    for _ in range(6):
+    for _ in range(2 if big else 6):
         stloop_one(acc, st, fr + fr2, "%s read limit" % d, test=test, rpos=rng.randrange(5, n + 6))
 
 def run_case(st, case):
